@@ -19,7 +19,7 @@ CONSTANTS
   Exts = {"e1", "e2", "e3"}
   KeyChains = {"ethereum", "minter"}
   KeyVariants = {"good", "wrongtx", "wrongkey", "stale", "wrongval"}
-  DepAmts = {40}
+  DepAmts = {40, 4000}
   DepFees = {0, 2}
   WithKeysAndPrices = FALSE
   FeePaids = {1}
